@@ -2579,7 +2579,7 @@ static long long Prelude()
 	OpDelete("Comment", "fh!fs!fc", false, false, "Host", "fh");
 	OpDelete("Host", "fh", true, false, "Host", "fh");
 	OpDelete("Host", "fh", true);
-	/* F-C17j: the deletion of a dependent is aborted in the middle of a cascade */
+	/* F-C17j (fixed by 0ce9ca7): the deletion of a dependent is aborted in the middle of a cascade; the delete must fail and keep the host */
 	OpCase(++n);
 	OpCreate("Host", "fj", false, none, J(R"({"check_command":"scc"})"));
 	OpCreate("Service", "fj!fs", false, none, J(R"({"check_command":"scc"})"));
